@@ -67,33 +67,34 @@ type Finding struct {
 
 // JobResult aggregates one exploration.
 type JobResult struct {
-	Job            *Job
-	Paths          int
-	ByOutcome      map[string]int
-	Queries        int
-	Sat            int
-	Unsat          int
-	Unknown        int
-	SolverErrors   int
-	SolverTime     time.Duration
-	Divergences    int
-	Steps          int64
-	Decisions      int
-	Findings       []*Finding
-	EngineErrors   []string
-	Covers         map[string]int
-	Calls          map[string]int
-	Externals      map[string]int
-	Samples        []map[string]interface{}
-	Exhausted      bool // every branch side explored or refuted
-	Capped         string
-	Wall           time.Duration
-	Tapes          [][]uint64 // a sample of input vectors for differential validation
-	TapeOutcomes   []string
-	TapeObserved   []string
-	Recovered      int
-	RecoveredSites map[string]int
-	TriedSites     map[string]int
+	Job             *Job
+	Paths           int
+	ByOutcome       map[string]int
+	Queries         int
+	Sat             int
+	Unsat           int
+	Unknown         int
+	SolverErrors    int
+	SolverTime      time.Duration
+	Divergences     int
+	Steps           int64
+	Decisions       int
+	Findings        []*Finding
+	EngineErrors    []string
+	engineErrorRuns int
+	Covers          map[string]int
+	Calls           map[string]int
+	Externals       map[string]int
+	Samples         []map[string]interface{}
+	Exhausted       bool // every branch side explored or refuted
+	Capped          string
+	Wall            time.Duration
+	Tapes           [][]uint64 // a sample of input vectors for differential validation
+	TapeOutcomes    []string
+	TapeObserved    []string
+	Recovered       int
+	RecoveredSites  map[string]int
+	TriedSites      map[string]int
 }
 
 type explorer struct {
@@ -275,6 +276,13 @@ func (e *explorer) runOne(it *item, solver *smt.Solver) []*item {
 	case interp.EngineError:
 		if len(res.EngineErrors) < 20 {
 			res.EngineErrors = append(res.EngineErrors, fmt.Sprintf("%s inputs=%v: %s\n%s", job.Name(), inputs, r.Msg, trunc(r.Stack, 3000)))
+		}
+		// the job cannot be decided any more: do not spend hours finding that out again and again
+		res.engineErrorRuns++
+		if res.engineErrorRuns >= 8 && res.Capped == "" {
+			res.Capped = "stopped after repeated engine errors"
+			e.stop = true
+			e.cond.Broadcast()
 		}
 	}
 	if job.MaxPaths > 0 && res.Paths >= job.MaxPaths && res.Capped == "" {
